@@ -122,6 +122,15 @@ func (p *c04) RunCase(ctx *runner.Ctx) runner.CaseResult {
 				flt = typedFilter(r, values, "f")
 			}
 			reqs = append(reqs, req{scanOp(spec.Name, src.index, flt, values, refmodel.RenderOpts{}), fmt.Sprintf("scan|%s|f%d", src.index, fi)})
+			if fi == 0 || r.Intn(2) == 0 {
+				// one worker of a parallel scan: whatever part of the table the library hands to a segment (all of it, as
+				// long as it ignores the parameters), paging through that segment - also across a deleted boundary
+				// item - yields what the segment's unpaginated read yields
+				sg := scanOp(spec.Name, src.index, flt, values, refmodel.RenderOpts{})
+				sg.TotalSegments = 2 + r.Intn(3)
+				sg.Segment = r.Intn(sg.TotalSegments)
+				reqs = append(reqs, req{sg, fmt.Sprintf("scan-segment|%s|f%d", src.index, fi)})
+			}
 			for _, hv := range src.hashPool[:2] {
 				for _, rev := range []bool{false, true} {
 					v2 := val.Item{":h": ixV(src.hashAttr, hv)}
